@@ -26,7 +26,11 @@ func (*urlencodedBodyProcessor) ProcessRequest(reader io.Reader, v plugintypes.T
 	values := urlutil.ParseQuery(b, '&')
 	argsCol := v.ArgsPost()
 	for k, vs := range values {
-		argsCol.Set(k, vs)
+		// Add, not Set: ARGS_POST is keyed case-insensitively, so Set("A", ...) followed by
+		// Set("a", ...) would silently replace the values sent under the other spelling.
+		for _, v := range vs {
+			argsCol.Add(k, v)
+		}
 	}
 	v.RequestBody().(*collections.Single).Set(b)
 	v.RequestBodyLength().(*collections.Single).Set(strconv.Itoa(len(b)))
